@@ -1222,11 +1222,6 @@ def construct_ids(q, cid):
 
 
 def load_findings(chk):
-    if not chk.findings:
-        # TEMPORARY fallback while the lead has not merged the proposed entries into known_findings.json
-        p = os.path.join(vlib.VERIF, "build", "kf-C03.json")
-        if os.path.exists(p):
-            chk.findings = json.load(open(p))
     return {f["id"]: f for f in chk.findings if f.get("status") == "known"}
 
 
